@@ -345,6 +345,18 @@ def r6(ctx: Context) -> None:
     ctx.floor("R6", "rendering methods", n, 15)
 
 
+def r8(ctx: Context) -> None:
+    """The scans compare ages in seconds with options configured in minutes (hours for the purge)."""
+    from ..flow import unit_misuse_sites
+
+    ctx.rule("R8", "units: a configuration option named *_minutes / *_hours is a quantity in that unit; along its def-use chain (locals, parameters of resolved callees) it is only multiplied by 60 / 3600, formatted into text, or handed on - nothing else. The dead-runner timeout (runner_considered_dead_after_minutes) reaches the heartbeat cut-offs as seconds: dropped, the timeout is 60 times shorter than configured, every runner whose heartbeat is older than a few seconds counts as dead and its RUNNING invocations are taken while it is alive")
+    n, bad = unit_misuse_sites(ctx.repo)
+    for f, x, why in bad:
+        ctx.fail("R8", f"{f.qualname}::unit-preserved::{ast.unparse(x).split('.')[-1]}", f.loc(x), f"`{ast.unparse(x)}` is {why}: minutes (hours) flow into a quantity that is compared with seconds")
+    ctx.ok("R8", "pynenc::reads-of-minute-and-hour-quantities-examined", "pynenc/", f"{n} reads")
+    ctx.floor("R8", "uses of minute and hour quantities", n, 10)
+
+
 def run(ctx: Context) -> None:
     sm = extract(ctx.repo)
     sites = sqlmini.sites(ctx.repo)
@@ -354,6 +366,7 @@ def run(ctx: Context) -> None:
     r4(ctx)
     r5(ctx)
     r6(ctx)
+    r8(ctx)
     # R7: what the scans read is what the transitions wrote: the status record / status index (in memory) and the status
     # columns (SQLite) have no writer besides the atomic transition, registration and purge (shared with C01/R4) - a scan
     # over an index that some read-only looking query narrowed in place skips stuck invocations
